@@ -10,6 +10,7 @@ from hxv.runner import Shard
 
 PROP = "C12"
 CASE_TIMEOUT = 2.0
+FUZZ = {"shards": ["gen-0", "gen-long-0"], "procs_per_shard": 2, "runs": 150000, "seconds": 420}
 RULE = (
     "case = (timeframe, integer-grid stream whose timestamps have several gaps of 2..40 buckets, duplicates and "
     "bursts, preload count, append chunk sizes, entry point CandleManager/Indicator/Hexital member); oracles = "
